@@ -201,3 +201,8 @@ def search(drv, model, diverged, lean, rng):
             m = c.check(o)
             if m: return c, o, "direct oracle: " + m
     return None
+
+# L2 guard-sequence fragment (extract/gen_guards.py -> lean/Op2Model/Gen/Guards.lean; notes/l2guards.md)
+LEAN_MODULES = LEAN_MODULES + ["Op2Proofs.Props.C10_Gen"]
+PROVED = PROVED + ("; " +
+          "L2 guard fragment (Gen/Guards.lean): C10_gen_writeFrame_refuses (WriteFrame refuses iff Prt.writeFrame does: 7-bit count vs layers.size()), C10_gen_imageOk (one iteration of ValidateImageMetadata refuses iff Prt.imageOk is false: 64-bit rounding of the scan-line width, palette index)")
